@@ -787,6 +787,9 @@ func areaCodec(r *Rng, n int, dir string) (*AreaOut, error) {
 				nontriv["e"+hexs(enc.Bytes)] = true
 			}
 			if valid {
+				if i%4 == 0 {
+					containerRoundTrip(out, s, "generated snapshot ("+label+")")
+				}
 				out.OracleN += 2
 				switch {
 				case enc.Kind != "bytes":
@@ -909,6 +912,22 @@ func areaCodec(r *Rng, n int, dir string) (*AreaOut, error) {
 		bigRoundTrip(out, s, "DBI of 10.9 MB (buffer growth)")
 	}
 
+	// (6) highly compressible content through the gzip container: many tiny DBIs, many identical entries
+	{
+		s := gSnap{Fmt: 3, Compat: 1, Meta: gMeta{Inst: []byte("i"), DBName: []byte("d")}}
+		for i := 0; i < 3000; i++ {
+			s.DBIs = append(s.DBIs, gDBI{Name: []byte("dbi")})
+		}
+		containerRoundTrip(out, s, "3000 empty DBIs of the same name (compression ratio > 10)")
+	}
+	{
+		s := gSnap{Fmt: 3, Compat: 1, DBIs: []gDBI{{Name: []byte("same")}}}
+		for i := 0; i < 20000; i++ {
+			s.DBIs[0].Entries = append(s.DBIs[0].Entries, gKV{Key: []byte("kkkkkkkk"), Val: []byte("vvvvvvvvvvvvvvvv"), TS: 7})
+		}
+		containerRoundTrip(out, s, "20000 identical entries (compression ratio > 10)")
+	}
+
 	out.Cases = len(cases)
 	out.Distinct = len(nontriv)
 	for _, k := range sortedKeys(tags) {
@@ -926,7 +945,47 @@ func areaCodec(r *Rng, n int, dir string) (*AreaOut, error) {
 	return out, err
 }
 
+// containerRoundTrip: the path every upload and download takes: snapshot.DumpData (protobuf + gzip) followed by
+// snapshot.LoadData (gunzip + Unmarshal) and the full iteration; the content must come back unchanged
+func containerRoundTrip(out *AreaOut, s gSnap, what string) {
+	out.OracleN++
+	o := guardDec(60*time.Second, func() (gSnap, error) {
+		m := &snapshot.Snapshot{FormatVersion: s.Fmt, CompatVersion: s.Compat, Meta: snapshot.Meta{
+			GenerationID: string(s.Meta.Gen), InstanceID: string(s.Meta.Inst), Hostname: string(s.Meta.Host),
+			LmdbTxnID: s.Meta.Txn, TimestampNano: s.Meta.TS, DatabaseName: string(s.Meta.DBName), FromLmdbTxnID: s.Meta.From}}
+		for _, d := range s.DBIs {
+			m.Databases = append(m.Databases, buildDBI(d))
+		}
+		blob, _, err := snapshot.DumpData(m)
+		if err != nil {
+			return gSnap{}, err
+		}
+		back, err := snapshot.LoadData(blob)
+		if err != nil {
+			return gSnap{}, err
+		}
+		return contentOf(back)
+	})
+	hist(out.Hist, "container/"+o.Kind)
+	if o.Kind != "ok" || !o.S.eq(s) {
+		var in map[string]any
+		if len(s.DBIs) <= 3 && kvCount(s) <= 8 {
+			in = map[string]any{"snapshot": s}
+		}
+		out.Oracle = append(out.Oracle, OracleFailure{"C07", "container-round-trip", what + ": LoadData(DumpData(s)) differs from s (" + o.Kind + " " + o.Msg + fmt.Sprintf("; %d of %d DBIs came back)", len(o.S.DBIs), len(s.DBIs)), in})
+	}
+}
+
+func kvCount(s gSnap) int {
+	n := 0
+	for _, d := range s.DBIs {
+		n += len(d.Entries)
+	}
+	return n
+}
+
 func bigRoundTrip(out *AreaOut, s gSnap, what string) {
+	containerRoundTrip(out, s, what)
 	out.OracleN++
 	enc := customEncode(s)
 	if enc.Kind != "bytes" {
